@@ -104,7 +104,10 @@ Decide(cfg, r) ==
 AfterRefused == {"afterRefused", "afterRefusedBodyCL", "afterRefusedBodyChunked"}
 Positions == {"first", "afterOK"} \cup AfterRefused
 NoUp == [t |-> "none", v |-> "-"]
-AccessKinds == {"GET", "GET10", "POST", "CONNECT", "MITMGET"}
+\* GETorigin: an origin-form request sent straight to the proxy port (the target is what its Host field names);
+\* MITMGEThost: inside an intercepted session, a request whose Host names another host than the tunnel's authority.
+\* The controls judge the host the request will be sent to, whatever form named it.
+AccessKinds == {"GET", "GET10", "POST", "CONNECT", "MITMGET", "GETorigin", "MITMGEThost"}
 AccessCfgs == [tf : {"off", "in", "out"}, auth : BOOLEAN, lh : {"deny", "allow"}, deny : BOOLEAN, dd : {FALSE},
                up : {NoUp, [t |-> "static", v |-> "HTTP_A"]}, ct : {"none"}]
 AccessReqs == [kind : AccessKinds, host : HostClasses \ {"direct", "directExcl"}, cred : CredClasses,
